@@ -57,6 +57,9 @@ CHECKS = {
  "C19": dict(cat="model_checking", ref="§3 C19",
    text="Every word of length ≤ 3 over an 8-letter step alphabet (texts either way, three kinds of forged data messages, garbage, heartbeat, refresh exchange) — 584 periodic traffic patterns — is repeated n, 2n and 4n times on the real conversations from an established session; the bytes reachable from each conversation are measured per field by a reflective walk and the output of the last period is recorded. Runs are deterministic, so growth is exact: a field or the per-period output that grows by ≥ n between 2n and 4n and ≥ n/2 between n and 2n is a violation.",
    tech="exhaustive enumeration of periodic histories executed on the implementation with an exact object-graph size oracle"),
+ "C03": dict(cat="model_checking", ref="§3 C03",
+   text="Explicit-state exploration of lifecycle histories (Send of fresh unmistakable markers, End, query, injected error report, SMP, extra-key request, clock tick, every FIFO delivery order) under policy sets covering every combination of the four behaviour flags on the sender, with and without fragmentation. A wire monitor inspects every message returned by every call: each marker is searched raw, inside the base64 armour and across reassembled fragments, and every data message is opened with the session keys. A marker given to Send while encrypted, finished or under required encryption must never be readable; a finished-state marker must not be emitted at all; a queued marker may only leave inside data messages of a later session.",
+   tech="explicit-state model checking of the implementation with a wire monitor on every emitted message"),
 }
 NA_REASON = "check not built yet (work in progress; see DESIGN.md §3 for the planned bounded exploration)"
 def main():
